@@ -2,7 +2,8 @@
 """Copies confirmed seeded changes from /tmp/seed-out into /verif/seeded/<Cxx>-<k>/ (patch.diff, demo.*, meta.json)."""
 import glob, json, os, shutil, sys
 # wave 1: /tmp/seed-out -> seeded/Cxx-1,2 ; wave 2: /tmp/seed2-out -> seeded/Cxx-3,4
-WAVES = [("/var/tmp/vf-confirm-logs", "/tmp/seed-out", 0), ("/var/tmp/vf-confirm2-logs", "/tmp/seed2-out", 2)]
+WAVES = [("/var/tmp/vf-confirm-logs", "/tmp/seed-out", 0), ("/var/tmp/vf-confirm2-logs", "/tmp/seed2-out", 2),
+         ("/var/tmp/vf-confirm3-logs", "/tmp/seed3-out", 4)]
 items = []
 for logs, out, off in WAVES:
     for res in sorted(glob.glob(logs + "/*.result")):
